@@ -314,6 +314,7 @@ package dtlshandshake
 // Every KeyUpdate flight consumes one handshake message sequence number (RFC 9147 5.2: message_seq increases by one per
 // message): a second KeyUpdate that re-used the number would be ACKed as a retransmission and never switch the peer's keys.
 //@ func postHandshake.buildKeyUpdateFlight
+//@ inline
 //@ requires args: p != nil && p.state != nil
 //@ ensures ku-sequence-consumed: result1 == nil ==> p.state.HandshakeSendSequence == old(p.state.HandshakeSendSequence) + 1
 //@ ensures ku-carries-the-consumed-number: result1 == nil && old(p.state.HandshakeSendSequence) >= 0 ==> int(result0.ID.MessageSequence) == old(p.state.HandshakeSendSequence)
